@@ -13,3 +13,6 @@ import PorepyVerif.C47.Props
 #print axioms PorepyVerif.C47.csv3d_roundtrip_dihedral
 #print axioms PorepyVerif.C47.csv3d_roundtrip_sorted
 #print axioms PorepyVerif.C47.elliptic_transparent
+#print axioms PorepyVerif.C47.csv2d_roundtrip_tol
+#print axioms PorepyVerif.C47.csv2d_roundtrip_max
+#print axioms PorepyVerif.C47.txt_roundtrip_dict
